@@ -3,7 +3,7 @@
 From TV Require Import Base.Prelude Base.Utf8 Base.Winnow Gen.Consts Spec.Abnf Spec.Lex Spec.Syntax.
 From TV Require Import Model.Trivia Model.Strings Model.Datetime Model.Numbers Model.Tree Model.Parse Model.Document Model.Write Model.Encode.
 From TV Require Import Proofs.LexEquivBase Proofs.PrintBackBase Proofs.PrintBackEnc Proofs.PrintBackKey Proofs.PrintBackValue Proofs.PrintBackDoc
-                       Proofs.PrintBackSort Proofs.PrintBackEnts Proofs.PrintBackHKey Proofs.PrintBackDVals Proofs.PrintBackDAll Proofs.PrintBackDKey.
+                       Proofs.PrintBackSort Proofs.PrintBackEnts Proofs.PrintBackHKey Proofs.PrintBackDVals Proofs.PrintBackDAll Proofs.PrintBackDKey Proofs.PrintBackIValue.
 Require Import Lia ZifyBool ZifyN ZifyNat.
 
 (* the source position of an item: the start of the header's table span; the start of the line's last key *)
@@ -30,7 +30,7 @@ Definition sitem_ok (s : bytes) (it : sitem) : Prop :=
       /\ k_repr k' = Some (raw_with_span (pos ja, pos jb)) /\ pos ja = (pos j0 + N.of_nat (length (pre_text s po k')))%N /\ pos ja <> pos jb
       /\ d_prefix (k_leaf k') = Some (raw_with_span (pos i0, pos j0)) /\ (pos i0 = pos j0 -> lstart s (N.to_nat (pos j0)))
       /\ Forall (hkey s) po /\ lkey s k'
-      /\ (forall ks, pre_text s ks k' = pre_text s po k' -> vplain v = true -> dline s (ks ++ [k'], v) = txt)
+      /\ (forall ks, pre_text s ks k' = pre_text s po k' -> vok s v = true -> dline s (ks ++ [k'], v) = txt)
   end.
 
 Lemma ppos_line k v ja jb : k_repr k = Some (raw_with_span (pos ja, pos jb)) -> pos ja <> pos jb -> ppos (PL k v) = pos ja.
